@@ -25,7 +25,8 @@ TRUSTED = ["Coq 8.16.1 kernel, vm_compute for the correspondence evaluation",
            "np.linalg.svd (LAPACK): u @ v enters the model as data; contract checked: it equals the input to 1e-9 on rotations",
            "libm cos/sin/arccos: Reals' functions in theorems, 160-bit fixed-point series in the Q instance; arccos answered by the "
            "observed angle t with cos t = model c checked to 1e-13 (a few cases per run evaluate Qacos itself)",
-           "coq/Agree.v agreement relation (1e-9; 1e-7 in the half-turn branch; forward Jacobian 1e-9 + 1e-15/theta)",
+           "coq/Agree.v agreement relation (1e-9; 1e-7 in the half-turn branch; forward Jacobian 1e-9 + 1e-15/theta; inverse "
+           "Jacobian 1e-9 relative + 4e-16/s^3 absolute: arccos conditioning, measured 2e-4 at an angle of 6e-5 rad)",
            "NumPy, vg"]
 CASE_IMPORTS = [("PW.model", "M_rodrigues")]
 ASSUMPTIONS = ["theorems are about exact real arithmetic; binary64 rounding is covered only by the tolerance of the "
@@ -142,7 +143,7 @@ Proof. intros {vars} Hpath. unfold {T}_path in Hpath; rops. path_facts Hpath. un
   rewrite Hc, Hs. change (nltb ROps) with Rltb.
 """ % (M3, M3, M3, M3)
     imports_inv = imports + [("PW.proofs", "P_rodrigues_inv")]
-    Rgen = r2m(np.array([0.3, -0.5, 0.8]))
+    Rgen = _reference_r2m([0.3, -0.5, 0.8])
     ks.append(Kernel(
         "inv_generic", {"m": Rgen.tolist()}, lambda m: _svd_stub_call(m, True),
         inv_head + """  rewrite (proj2 (Rltb_false _ _)) by (unfold rod_small, nfrac; rops; lra).
@@ -219,7 +220,9 @@ Proof. intros {vars} Hpath v. unfold {T}_path in Hpath; rops. path_facts Hpath. 
 LATTICE = [(a, b, c) for a in (-1, 0, 1) for b in (-1, 0, 1) for c in (-1, 0, 1) if (a, b, c) != (0, 0, 0)]
 MAGS = [1e-300, 1e-160, 1e-30, EPS / 2, EPS / 1.5, EPS * 1.5, EPS * 2, 1e-12, 1e-10, 1e-8, 3e-8, 1e-6, 1e-4, 1e-2, 0.1, 0.5, 1.0, 1.5,
         2.0, 2.5, 3.0, 3.1, math.pi - 1e-3, math.pi - 1e-6, math.pi + 1e-6, math.pi + 1e-3, 3.5, 4.0, 6.0, 2 * math.pi, 7.0,
-        10.0, 31.4, 100.0, 700.0]
+        10.0, 31.4, 100.0, 700.0,
+        np.pi, np.pi, 3 * np.pi, 5 * np.pi, 3 * np.pi - 1e-4, 3 * np.pi + 1e-5, 5 * np.pi - 1e-3, 7 * np.pi + 3e-4]
+MAGS += [np.pi + sg * 2.0 ** -k for k in (10, 14, 20, 26, 32, 40, 46, 50) for sg in (1, -1)]
 
 
 def _direction(rng):
@@ -250,8 +253,26 @@ def _half_turn(k):
     return [[float(2 * k[i] * k[j] / n - (1 if i == j else 0)) for j in range(3)] for i in range(3)]
 
 
+def _reference_r2m(r):
+    """the Rodrigues formula in plain numpy -- generators and kernel scenarios must not depend on the implementation's output"""
+    r = np.array(r, dtype=np.double).reshape(3)
+    theta = float(np.linalg.norm(r))
+    if theta == 0.0:
+        return np.eye(3)
+    k = r / theta
+    K = np.array([[0.0, -k[2], k[1]], [k[2], 0.0, -k[0]], [-k[1], k[0], 0.0]])
+    return math.cos(theta) * np.eye(3) + (1.0 - math.cos(theta)) * np.outer(k, k) + math.sin(theta) * K
+
+
 def _proj(R):
-    u, _, v = np.linalg.svd(np.array(R, dtype=np.double))
+    """u @ v of numpy's svd, or None when the matrix is not finite / LAPACK does not converge (never raises)"""
+    R = np.array(R, dtype=np.double)
+    if R.shape != (3, 3) or not np.all(np.isfinite(R)):
+        return None
+    try:
+        u, _, v = np.linalg.svd(R)
+    except np.linalg.LinAlgError:
+        return None
     return np.dot(u, v)
 
 
@@ -262,7 +283,10 @@ def _s_of(P):
 
 def _threshold_safe(R):
     """the s < 1e-5 decision must not sit on rounding: keep s away from the threshold"""
-    s = _s_of(_proj(R))
+    P = _proj(R)
+    if P is None:
+        return False
+    s = _s_of(P)
     return not (0.8 * SMALL < s < 1.25 * SMALL)
 
 
@@ -275,7 +299,7 @@ def _overshoot_halfturn(rng):
         kk = np.array(k) / np.linalg.norm(k)
         R = 2 * np.outer(kk, kk) - np.eye(3)
         P = _proj(R)
-        if min(P[0, 0], P[1, 1], P[2, 2]) < -1.0:
+        if P is not None and min(P[0, 0], P[1, 1], P[2, 2]) < -1.0:
             return R.tolist()
     return None
 
@@ -283,6 +307,10 @@ def _overshoot_halfturn(rng):
 def gen_cases(rng, n, tier):
     cases = []
     lat = 0
+    for i, r in enumerate(([0.0, 0.0, np.pi], [np.pi, 0.0, 0.0], [0.0, -np.pi, 0.0], _scaled([1.0, 1.0, 1.0], np.pi),
+                           [0.0, 0.0, 3 * np.pi], _scaled([1.0, -2.0, 2.0], np.pi - 2.0 ** -20))):
+        cases.append({"kind": "fwd_pi", "fn": ["cv2", "r2m"][i % 2], "shape": [[3], [3, 1], [1, 3]][i % 3],
+                      "data": [float(x) for x in r], "jac": True})
     while len(cases) < n:
         u = rng.random()
         jac = rng.random() < 0.5
@@ -312,11 +340,10 @@ def gen_cases(rng, n, tier):
                           "data": [x for row in R for x in row], "jac": jac})
         elif u < 0.70:
             # matrices produced by the forward map, at angles 1e-9 .. 1e-5 from 0 and pi and in between
-            from polliwog.transform import rodrigues_vector_to_rotation_matrix as r2m
             d = _direction(rng)
             off = 10 ** rng.uniform(-9, -4.5)
             mag = rng.choice([off, math.pi - off, rng.uniform(0.01, 3.13), rng.uniform(3.0, 3.1415)])
-            R = r2m(np.array(_scaled(d, mag)))
+            R = _reference_r2m(_scaled(d, mag))
             if not _threshold_safe(R):
                 continue
             cases.append({"kind": "inv_of_fwd", "fn": rng.choice(["cv2", "m2r"]), "shape": [3, 3],
@@ -385,6 +412,8 @@ def run_impl(c):
             o["args_unchanged"] = bool(np.array_equal(before, arr))
             if c["shape"] == [3, 3]:
                 P = _proj(arr)
+                if P is None:  # cannot happen for the finite inputs generated here; never let LAPACK abort the harness
+                    P = np.full((3, 3), np.nan)
                 o["P"] = P.reshape(-1).tolist()
                 v = np.array(o["vals"])
                 o["t"] = float(np.linalg.norm(v)) if np.all(np.isfinite(v)) else 0.0
@@ -395,9 +424,15 @@ def run_impl(c):
             elif len(c["data"]) == 3:
                 # round trip and finite differences for the oracle
                 r = np.array(c["data"], dtype=np.double)
-                rb = T.rotation_matrix_to_rodrigues_vector(np.array(o["vals"]).reshape(3, 3))
-                o["back"] = rb.reshape(-1).tolist()
-                o["back_shape"] = list(rb.shape)
+                if np.all(np.isfinite(o["vals"])):
+                    try:
+                        rb = T.rotation_matrix_to_rodrigues_vector(np.array(o["vals"]).reshape(3, 3))
+                        o["back"] = np.asarray(rb, dtype=float).reshape(-1).tolist()
+                        o["back_shape"] = list(np.shape(rb))
+                    except Exception as e:  # noqa: the round trip is extra evidence; the forward result itself is judged
+                        o["back"], o["back_shape"], o["back_error"] = None, None, type(e).__name__
+                else:
+                    o["back"], o["back_shape"] = None, None
                 if c["jac"]:
                     h = 1e-6 * max(1.0, float(np.linalg.norm(r)))
                     fd = []
@@ -488,12 +523,18 @@ def oracle(c, o):
         if c["jac"]:
             if o["jshape"] != [3, 9]:
                 return "forward Jacobian has shape %r" % (o["jshape"],)
-            J = np.array(o["jvals"]).reshape(3, 9)
-            fd = np.array(o["fd"])
+            J = np.array(o["jvals"], dtype=float).reshape(3, 9)
+            if not np.all(np.isfinite(J)):
+                return "forward Jacobian is not finite"
+            fd = np.array(o["fd"], dtype=float)
+            if not np.all(np.isfinite(fd)):
+                return "forward matrix is not finite next to r (central differences)"
             tolj = 1e-6 * max(1.0, theta) + (2e-15 / theta if theta >= EPS else 0.0) + 1e-9 / o["fd_h"] * 1e-3
             if float(np.abs(J - fd).max()) > tolj:
                 return "forward Jacobian differs from central differences by %.3g" % float(np.abs(J - fd).max())
         # vector -> matrix -> vector is the identity for |r| < pi
+        if o["back"] is None:
+            return "the matrix returned for r is rejected by rotation_matrix_to_rodrigues_vector (%s)" % o.get("back_error")
         if o["back_shape"] != [3, 1]:
             return "inverse result has shape %r" % (o["back_shape"],)
         rb = np.array(o["back"])
